@@ -49,10 +49,10 @@ Fixpoint spec_states (st : list form * Z) (ops : list op) : list (list form) :=
   fst st :: match ops with [] => [] | o :: ops' => spec_states (spec_step st o) ops' end.
 
 (* ================= Stash ================= *)
-(* forms the stash file can carry, given the reader: no TAB or NL inside a line, no empty line, not
-   blank, and the reader accepts the text exactly when the last line has been read (complete, and not
-   complete earlier) *)
-Definition sline_ok (l : line) : bool := line_ok l && match l with [] => false | _ => true end.
+(* forms the stash file can carry, given the reader: no TAB or NL inside a line, the first line not
+   empty, not blank, and the reader accepts the text exactly when the last line has been read
+   (complete, and not complete earlier) *)
+Definition first_nonempty (f : form) : bool := match f with (_ :: _) :: _ => true | _ => false end.
 Definition is_full (r : rres) : bool := match r with RFull => true | _ => false end.
 Definition is_partial (r : rres) : bool := match r with RPartial => true | _ => false end.
 Fixpoint chain (rd : list byte -> rres) (pre suf : form) : bool :=
@@ -62,7 +62,7 @@ Fixpoint chain (rd : list byte -> rres) (pre suf : form) : bool :=
   | l :: suf' => is_partial (rd (expand (pre ++ [l]))) && chain rd (pre ++ [l]) suf'
   end.
 Definition sencodable (rd : list byte -> rres) (f : form) : bool :=
-  forallb sline_ok f && negb (form_empty f) && chain rd [] f.
+  forallb line_ok f && first_nonempty f && negb (form_empty f) && chain rd [] f.
 
 (* the remembered stash: blank forms and a repetition of the most recent form are not recorded *)
 Definition sspec_add (fs : list form) (f : form) : list form :=
